@@ -121,8 +121,40 @@ pub fn gen(tier: &str, seed: u64, out: &mut dyn FnMut(Value)) {
             emit(json!(m), out);
         }
     }
-    // random maps with extreme ids
     let mut rng = Rng::new(seed);
+    // long id lists (any small or large collection must answer the same as membership in the set): 9..24 ids,
+    // mostly negated, all negated, or mixed, against every id around the range
+    let nlong = if tier == "thorough" { 4000 } else { 300 };
+    for k in 0..nlong {
+        let len = 9 + rng.below(16);
+        let mode = k % 3;
+        let ids: Vec<i64> = (0..len)
+            .map(|_| {
+                let v = 1 + rng.below(20) as i64;
+                match mode {
+                    0 => -v,
+                    1 => if rng.chance(1, 5) { v } else { -v },
+                    _ => if rng.chance(1, 2) { v } else { -v },
+                }
+            })
+            .collect();
+        let mo = json!([["a", ids]]);
+        for id in -21i64..=21 {
+            out(json!({"op": "admits", "mo": mo, "src": "a", "id": id, "tag": "long id list", "nt": true}));
+        }
+    }
+    // a source is a literal name: `*`, `?`, `.*`, an empty name or a name in another letter case select nothing else
+    for lit in ["*", "?", ".*", "a*", "", "A", "a ", "%", "any", "all", "~"] {
+        for ids in [vec![], vec![1i64], vec![-1]] {
+            let mo = json!([[lit, ids]]);
+            for src in ["a", "b", "*", "", "A", "a ", lit] {
+                for id in [1i64, 2] {
+                    out(json!({"op": "admits", "mo": mo, "src": src, "id": id, "tag": "source names are literal", "nt": true}));
+                }
+            }
+        }
+    }
+    // random maps with extreme ids
     let ext = [0i64, 1, -1, i64::MAX, i64::MIN, i64::MIN + 1, i64::MAX - 1, 2, -2, 7];
     let n = if tier == "thorough" { 100000 } else { 8000 };
     for _ in 0..n {
